@@ -2,6 +2,7 @@ package mobius
 
 import (
 	"errors"
+	"os"
 	"time"
 
 	"github.com/jhalter/mobius/hotline"
@@ -118,4 +119,99 @@ func vNewClient(srv *hotline.Server, name string) *hotline.ClientConn {
 
 func vIsErrReply(res []hotline.Transaction) bool {
 	return len(res) == 1 && res[0].IsReply == 1 && res[0].ErrorCode == [4]byte{0, 0, 0, 1}
+}
+
+// ---- in-harness file system model (engine-only replacement of the os functions the stores call) -----------------
+
+type vFSOp struct {
+	kind string // "write" (create/truncate + write + close), "rename", "remove"
+	name string
+	to   string
+	data []byte
+}
+
+type vFSState struct {
+	names []string
+	data  [][]byte
+}
+
+var vfs = &vFSState{}
+var vfsLog []vFSOp
+var vfsFailNext = -1 // index of the operation that fails (never, when negative)
+
+func (s *vFSState) find(name string) int {
+	for i, n := range s.names {
+		if n == name {
+			return i
+		}
+	}
+	return -1
+}
+func (s *vFSState) put(name string, d []byte) {
+	if i := s.find(name); i >= 0 {
+		s.data[i] = d
+		return
+	}
+	s.names = append(s.names, name)
+	s.data = append(s.data, d)
+}
+func (s *vFSState) del(name string) {
+	if i := s.find(name); i >= 0 {
+		s.names = append(s.names[:i:i], s.names[i+1:]...)
+		s.data = append(s.data[:i:i], s.data[i+1:]...)
+	}
+}
+func (s *vFSState) clone() *vFSState {
+	return &vFSState{names: append([]string(nil), s.names...), data: append([][]byte(nil), s.data...)}
+}
+
+func vfsReset() {
+	vfs = &vFSState{}
+	vfsLog = nil
+	vfsFailNext = -1
+}
+
+func vfsApply(s *vFSState, op vFSOp) {
+	switch op.kind {
+	case "write":
+		s.put(op.name, op.data)
+	case "rename":
+		if i := s.find(op.name); i >= 0 {
+			d := s.data[i]
+			s.del(op.name)
+			s.put(op.to, d)
+		}
+	case "remove":
+		s.del(op.name)
+	}
+}
+
+func vfsDo(op vFSOp) error {
+	if len(vfsLog) == vfsFailNext {
+		vfsLog = append(vfsLog, vFSOp{kind: "failed:" + op.kind, name: op.name})
+		return errors.New("vfs: injected failure")
+	}
+	if op.kind == "rename" && vfs.find(op.name) < 0 {
+		return errors.New("vfs: no such file")
+	}
+	if op.kind == "remove" && vfs.find(op.name) < 0 {
+		return errors.New("vfs: no such file")
+	}
+	vfsLog = append(vfsLog, op)
+	vfsApply(vfs, op)
+	return nil
+}
+
+func vStub_os_WriteFile(name string, data []byte, perm os.FileMode) error {
+	return vfsDo(vFSOp{kind: "write", name: name, data: append([]byte(nil), data...)})
+}
+func vStub_os_Rename(oldpath, newpath string) error {
+	return vfsDo(vFSOp{kind: "rename", name: oldpath, to: newpath})
+}
+func vStub_os_Remove(name string) error { return vfsDo(vFSOp{kind: "remove", name: name}) }
+func vStub_os_ReadFile(name string) ([]byte, error) {
+	if i := vfs.find(name); i >= 0 {
+		return append([]byte(nil), vfs.data[i]...), nil
+	}
+	return nil, os.ErrNotExist
 }
